@@ -648,7 +648,7 @@ def oracle(ctx, n_override=None):
                 f"{len(lst)} case(s) with this signature")
     # (2e) generated histories 'the plan adds, changes, removes one or REMOVES ALL environment
     #      overrides of an otherwise identical step' (leading VAR=value words / env_overrides argument)
-    nv = ctx.scale(30, 400)
+    nv = ctx.scale(24, 400)
     vres = e3.pool_map(_run_override, [(i, ctx.seed) for i in range(nv)], nproc=ctx.scale(10, 12))
     vby: dict = {}
     for res in vres:
